@@ -22,11 +22,13 @@ from pvc.units import UNITS  # noqa: E402
 from pvc import models as _models  # noqa: E402
 
 _RT = ["contracts.runtime"]
+_IN = ["contracts.interpret"]
+_OV = ["contracts.overlay"]
 CONTRACT_MODULES = {
     "C12": ["contracts.c12"],
     "C04": ["contracts.c12"] + _RT,
-    "C02": _RT + ["contracts.overlay"], "C16": _RT, "C01": _RT,
-    "C03": ["contracts.overlay"], "C07": ["contracts.overlay"],
+    "C02": _RT + _OV + _IN, "C16": _RT, "C01": _RT,
+    "C03": _OV + _IN, "C07": _OV + _IN, "C11": _IN,
 }
 
 UNIT_WALL_BUDGET = {"quick": 150, "thorough": 600}
@@ -48,7 +50,7 @@ def _run_unit(args):
         try:
             res, st = explore(lambda c: u.harness(c), W, f"{prop}/{name}", max_paths=u.max_paths,
                               keep_smt=(tier == "thorough"), wall_budget=UNIT_WALL_BUDGET[tier])
-            err = None
+            err = ("incomplete: " + st["incomplete"]) if st.get("incomplete") else None
         except Unsupported as e:
             res, st, err = [], {"paths": 0, "covered": [], "solver_time_s": 0, "notes": []}, f"unsupported: {e}"
         shas = {}
@@ -204,7 +206,7 @@ def main(argv):
                     n_ob += 1
                     n_dis += 1
                 by_backend["z3"] += 1
-                if len(samples) < 6 and o["goal"] != "True":
+                if len(samples) < 6 and o["goal"] not in ("True", "true"):
                     samples.append({"obligation": o["name"], "path": o["path"], "goal": o["goal"][:300], "solver": o["solver"], "ms": o["ms"]})
             elif o["status"] == "undecided":
                 if u.mode == "bounded":
